@@ -3,6 +3,8 @@
 -/
 import Asn1.Generated
 import Proofs.Fuel
+import Proofs.Parse
+import Proofs.StrictEverywhere
 
 namespace Asn1.C15
 
@@ -130,5 +132,64 @@ theorem strict_boolean_cer_der (h : Bytes) (tg : Tag) (c : Bytes) (v : Val) :
     (decPrim Generated.derDecByType .boolean (.prim h tg c) = .ok v →
       (c = [0x00] ∧ v = .bool false) ∨ (c = [0xFF] ∧ v = .bool true)) :=
   ⟨strict_boolean _ (by decide) h tg c v, strict_boolean _ (by decide) h tg c v⟩
+
+/-! ### wherever the offending element occurs
+
+`Rep P x x'` (Proofs/StrictEverywhere.lean): `x'` is the element `x` with one sub-element at any depth —
+under any number of explicit or implicit tags, as a SEQUENCE or SET member behind skipped
+OPTIONAL/DEFAULT members, as a SEQUENCE OF / SET OF element, as a CHOICE alternative — replaced. -/
+
+/-- **DER rejects a constructed encoding wherever a primitive one was accepted** — in particular a
+    segmented string of any string type or BIT STRING in place of the primitive one — at top level or
+    at any nesting depth, under any tagging, for every guiding type without ANY: if the DER decoder
+    accepts `x`, it rejects every `x'` obtained by re-writing one primitive element of `x` in
+    constructed form with the same identifier class and number. -/
+theorem der_rejects_constructed_everywhere (t : Ty) (x x' : TLV) (v : Val)
+    (hg : Ty.good false t = true) (hr : Rep PrimToCons x x')
+    (h : decTy Generated.derDecByType t x = .ok v) :
+    ∃ e, decTy Generated.derDecByType t x' = .error e :=
+  (rep_rej Generated.derDecByType false PrimToCons
+    (fun y y' hp => primToCons_rej Generated.derDecByType (by decide) y y' hp) hr).ty t hg v h
+
+/-- the same on octets: what the DER decoder returns for the re-written encoding is an error -/
+theorem der_rejects_constructed_everywhere_bytes (t : Ty) (x x' : TLV) (v : Val) (tail : Bytes)
+    (hg : Ty.good false t = true) (hr : Rep PrimToCons x x') (hw : x'.WF) (hd : x'.allDef = true)
+    (h : decTy Generated.derDecByType t x = .ok v) :
+    ∃ e, decodeOne Generated.derDecByType t (x'.ser ++ tail) = .error e := by
+  obtain ⟨e, he⟩ := der_rejects_constructed_everywhere t x x' v hg hr h
+  refine ⟨e, ?_⟩
+  unfold decodeOne
+  rw [parseOne_ser Generated.derDecByType.parse x' tail hw (Or.inr hd)]
+  simp [he, Except.map]
+
+/-- **CER and DER reject BOOLEAN contents other than 00 and FF wherever the BOOLEAN occurs**
+    (identifier `[UNIVERSAL 1]`: untagged or under explicit tags, at any depth), for every guiding
+    type without ANY and without an IMPLICIT tag of class UNIVERSAL: if the decoder accepts `x`, it
+    rejects every `x'` obtained by replacing the contents of one `[UNIVERSAL 1]` element. -/
+theorem strict_boolean_everywhere_partial (t : Ty) (x x' : TLV) (v : Val)
+    (hg : Ty.good true t = true) (hr : Rep BadBool x x') :
+    (decTy Generated.cerDecByType t x = .ok v → ∃ e, decTy Generated.cerDecByType t x' = .error e) ∧
+    (decTy Generated.derDecByType t x = .ok v → ∃ e, decTy Generated.derDecByType t x' = .error e) :=
+  ⟨fun h => (rep_rej Generated.cerDecByType true BadBool
+      (fun y y' hp => badBool_rej Generated.cerDecByType (by decide) y y' hp) hr).ty t hg v h,
+   fun h => (rep_rej Generated.derDecByType true BadBool
+      (fun y y' hp => badBool_rej Generated.derDecByType (by decide) y y' hp) hr).ty t hg v h⟩
+
+/-- the premises are met: a primitive UTF8String two levels down (SEQUENCE member under an explicit tag,
+    after a skipped OPTIONAL member) re-written in constructed form; the DER decoder accepts the first
+    tree -/
+example :
+    let t : Ty := .seq (.cons .opt (.prim .integer) (.cons .req (.tagged true .context 0 (.prim (.str 12))) .nil))
+    let y : TLV := .prim [0x0c, 0x01] ⟨.universal, false, 12⟩ [0x61]
+    let y' : TLV := .cons [0x2c, 0x03] ⟨.universal, true, 12⟩ false [.prim [0x04, 0x01] ⟨.universal, false, 4⟩ [0x61]]
+    let x : TLV := .cons [0x30, 0x05] ⟨.universal, true, 16⟩ false [.cons [0xa0, 0x03] ⟨.context, true, 0⟩ false [y]]
+    let x' : TLV := .cons [0x30, 0x07] ⟨.universal, true, 16⟩ false [.cons [0xa0, 0x05] ⟨.context, true, 0⟩ false [y']]
+    Ty.good false t = true ∧ Rep PrimToCons x x' ∧
+      decTy Generated.derDecByType t x = .ok (.seq [.absent, .str [0x61]]) := by
+  refine ⟨by decide, ?_, ?_⟩
+  · exact .child (pre := []) (post := []) (.child (pre := []) (post := [])
+      (.here ⟨_, _, _, _, _, _, _, rfl, rfl, rfl, rfl⟩))
+  · simp [decTy, decBody, decFields, decPrim, Ty.accepts, Ty.outerTags, Ty.tags, PrimTy.univNum, Tag.same,
+      TLV.tag, Except.map]
 
 end Asn1.C15
